@@ -511,6 +511,7 @@ class SynEngine:
                 self.violate('soundness', 'constraint:forbid_wire', f'wire {fr}->{to} is present although forbidden')
                 return
         st.bump('returned-circuit-sound')
+        self.ev.setdefault('circ', []).append(net.digest())
         if any(c != mask for c in care):
             st.bump('returned-circuit-with-dont-cares-sound')
         if cons_calls:
